@@ -727,9 +727,23 @@ class Interp(object):
             else:
                 env.globals[t.id] = v
         elif isinstance(t, (ast.Tuple, ast.List)):
-            items = self.unpack(v, len(t.elts), any(isinstance(e, ast.Starred) for e in t.elts))
-            if any(isinstance(e, ast.Starred) for e in t.elts):
-                raise Undecided("starred assignment")
+            stars = [k for k, e in enumerate(t.elts) if isinstance(e, ast.Starred)]
+            if stars:
+                # a, *rest, z = v: decided for a sequence whose length is known; a symbolic sequence is undecided
+                if isinstance(v, Sym):
+                    raise Undecided("starred assignment from a symbolic value")
+                items = list(self.iterate(v))
+                k, n = stars[0], len(t.elts)
+                if len(items) < n - 1:
+                    raise ValueError("not enough values to unpack (expected at least %d, got %d)" % (n - 1, len(items)))
+                tail = n - 1 - k
+                for e, i in zip(t.elts[:k], items[:k]):
+                    self.assign(e, i, env)
+                self.assign(t.elts[k].value, items[k:len(items) - tail], env)
+                for e, i in zip(t.elts[k + 1:], items[len(items) - tail:]):
+                    self.assign(e, i, env)
+                return
+            items = self.unpack(v, len(t.elts))
             for e, i in zip(t.elts, items):
                 self.assign(e, i, env)
         elif isinstance(t, ast.Attribute):
